@@ -9,7 +9,7 @@ import re
 from . import common as C
 
 EXN_CODE = {"KeyError": 1, "ValueError": 2, "NotImplementedError": 3, "DispatchError": 4,
-            "NetworkXError": 5, "StopIteration": 6, "NetworkXUnfeasible": 7}
+            "NetworkXError": 5, "StopIteration": 6, "NetworkXUnfeasible": 7, "RecursionError": 8}   # 8 = the model's OutOfFuel: a walk that does not end
 
 
 class MySeq(collections.abc.Sequence):
@@ -42,8 +42,10 @@ def gen_gimpl(rnd, universe, tag=None, p_log=0.3, p_raise=0.06):
             "raise_on": rnd.choice(universe) if rnd.random() < p_raise else None}
 
 
-def gen_system(rnd, n=None, allow_dup_sources=False):
-    """A rooted tree of n types (id 0 = Generic) + inference edges from lower to higher ids."""
+def gen_system(rnd, n=None, allow_dup_sources=False, p_back=0.0):
+    """A rooted tree of n types (id 0 = Generic) + inference edges from lower to higher ids; with
+    probability p_back an inference edge goes from a higher to a lower id instead (cyclical relations,
+    which visions only warns about: walks may revisit a type and end, or never end)."""
     n = n if n is not None else rnd.randint(1, 12)
     m = rnd.randint(2, 5)
     universe = list(range(m))
@@ -67,7 +69,8 @@ def gen_system(rnd, n=None, allow_dup_sources=False):
         if n < 2:
             break
         tgt = rnd.randrange(1, n)
-        cands = [s for s in range(tgt) if allow_dup_sources or s not in [d["related"] for d in types[tgt]["decls"]]]
+        back = rnd.random() < p_back
+        cands = [s for s in (range(tgt + 1, n) if back else range(tgt)) if allow_dup_sources or s not in [d["related"] for d in types[tgt]["decls"]]]
         if not cands:
             continue
         src = rnd.choice(cands)
@@ -130,23 +133,28 @@ def build_real(system):
     classes = {0: Generic}
     for td in system["types"][1:]:
         i = td["id"]
+        if any(dc["related"] > i for dc in td["decls"]):
+            td["declarative"] = False        # a relation to a type created later needs the lazy get_relations form
         rels = []
         for dc in td["decls"]:
-            kw = {"related_type": classes[dc["related"]]}
+            kw = {"related_type": dc["related"]}      # resolved to the class when the relations are asked for
             if dc["guard"] is not None:
                 kw["relationship"] = guard_fn(dict(dc["guard"])[-1])
             if dc["trans"] is not None:
                 kw["transformer"] = trans_fn(dict(dc["trans"])[-1])
             rels.append((dc["inferential"], kw))
+
+        def resolve(kw):
+            return dict(kw, related_type=classes[kw["related_type"]])
         base_contains = guard_fn(dict(td["contains"])[-1])
         if td["declarative"]:
-            ident = [kw for inf, kw in rels if not inf]
-            infer = [kw for inf, kw in rels if inf]
+            ident = [resolve(kw) for inf, kw in rels if not inf]
+            infer = [resolve(kw) for inf, kw in rels if inf]
             cls = create_type(f"T{i}", contains=base_contains, identity=ident if len(ident) != 1 else ident[0],
                               inference=infer if infer else None)
         else:
-            def get_relations(rels=rels):
-                return [(InferenceRelation if inf else IdentityRelation)(**kw) for inf, kw in rels]
+            def get_relations(rels=rels, resolve=resolve):
+                return [(InferenceRelation if inf else IdentityRelation)(**resolve(kw)) for inf, kw in rels]
 
             def mk_contains(bc):
                 def contains_any(item: Any, state: dict) -> bool:
@@ -162,6 +170,8 @@ def build_real(system):
         if td["declarative"]:
             # per-class contains registrations are only possible on multimethods: skip (recorded in model by dropping them)
             td["contains"] = [c for c in td["contains"] if c[0] == -1]
+    for td in system["types"][1:]:
+        cls = classes[td["id"]]
         for dc in td["decls"]:
             rel = classes[dc["related"]]
             if dc["guard"] is not None:
